@@ -11,11 +11,12 @@ def run(ctx):
         "translate/tables.py for _pauli_products_map; hand model coq/model/Pauli.v (pauli_product) and "
         "coq/model/Operator.v / OperatorExt.v / OperatorAdj.v (add_term, +=, -=, /=, scalar multiple, operator product, commutator, "
         "hermitian_conjugated) and coq/model/SparseExport.v (get_sparse_matrix: matrix list, scipy kron index rule, weighted sum) "
-        "tied to the code by vm_compute "
+        "and coq/model/TransAmp.v (pauli_label_to_bsv, transition_amp_representation, transition_amp_comp_basis; corr_C05_tamp.py, "
+        "registers up to 70 qubits) tied to the code by vm_compute "
         "correspondence on Gaussian-integer coefficients (corr_C05.py) and AST fingerprints",
         "documented Pauli matrices; scipy.sparse.kron index rule (A (x) B)[i, j] = A[i // 2, j // 2] B[i % 2, j % 2] as modelled; "
         "numpy oracle (sweep_C05.py) also for "
-        "bsv/transition amplitudes, Trotter-Suzuki, label interning and string round trip",
+        "Trotter-Suzuki, label interning and string round trip",
         "partial: the sparse formats other than the dense view, PauliLabel interning/str parsing have no "
         "theorem (sweep only); coefficients are exact ring elements in the theorems (binary64 rounding not modelled)",
     ]
@@ -27,7 +28,12 @@ def run(ctx):
                        "Operator.__itruediv__", "Operator.hermitian_conjugated", "commutator"])
     fingerprint.check(ctx, "packages/core/quri_parts/core/operator/sparse.py",
                       ["_convert_pauli_label_to_sparse", "_convert_operator_to_sparse", "get_sparse_matrix"])
+    fingerprint.check(ctx, "packages/core/quri_parts/core/operator/representation/__init__.py",
+                      ["transition_amp_representation", "transition_amp_comp_basis"])
+    fingerprint.check(ctx, "packages/core/quri_parts/core/utils/bit.py", ["parity_sign_of_bits"])
+    fingerprint.check(ctx, "packages/core/quri_parts/core/operator/representation/bsf.py", ["pauli_label_to_bsv"])
     ctx.coq(["conjtab.v"], ["C05.v"])
     ctx.harness("corr_C05.py", kind="corr")
     ctx.harness("corr_C05_export.py", kind="corr")
+    ctx.harness("corr_C05_tamp.py", kind="corr")
     ctx.harness("sweep_C05.py")
